@@ -71,9 +71,13 @@ def prop_of_desc(desc, primary):
 REPLAY_CRATE = os.path.join(VERIF, "replay")
 
 
-def build_replay(build_dir, metas, profile):
+def build_replay(build_dir, metas, profile, stubmm=False):
     """Generate and build the native replay binary (harness bodies + real /repo code with the guard
-    on, kani::any() := recorded values). Returns the binary path."""
+    on, kani::any() := recorded values). Returns the binary path.
+    stubmm: build /repo with --cfg multiqueue2_verif_stubmm as well, i.e. with the memory manager
+    replaced by the same ledger stubs the Kani harness used (whole-queue harnesses): the real
+    manager's own shim operations would otherwise be extra preemption points and shift the recorded
+    kani::any() sequence.  Harnesses that run the real manager under Kani replay with it."""
     src = os.path.join(build_dir, "replay_src")
     if os.path.exists(src):
         shutil.rmtree(src)
@@ -89,11 +93,14 @@ def build_replay(build_dir, metas, profile):
         cargo = cargo.replace('path = "/repo"', 'path = "%s"' % P.REPO).replace(
             'mq2_harness = { path = "%s/harness" }' % VERIF, 'mq2_harness = { path = "%s" }' % P.harness_dir_for(build_dir))
     open(os.path.join(src, "Cargo.toml"), "w").write(cargo)
-    tdir = os.path.join(build_dir, "replay_target")
+    tdir = os.path.join(build_dir, "replay_target" + ("_stubmm" if stubmm else ""))
     cmd = ["cargo", "build", "--offline", "--target-dir", tdir]
     if profile == "release":
         cmd.append("--release")
-    p = P.run(cmd, cwd=src, env=P.env_for_build())
+    env = P.env_for_build()
+    if stubmm:
+        env["RUSTFLAGS"] += " --cfg multiqueue2_verif_stubmm"
+    p = P.run(cmd, cwd=src, env=env)
     if p.returncode != 0:
         raise RuntimeError("replay build failed:\n" + p.stdout[-4000:])
     return os.path.join(tdir, profile if profile == "release" else "debug", "mq2_replay")
@@ -300,17 +307,19 @@ def check(prop, tier, seed, selected, build_dir, workdir, args, t_start):
                            schedule=summarize_trace(trace), tier=tier)
                 json.dump(rep, open(rep_path, "w"), indent=1)
                 reproduced = True
+                stubmm = R.HARNESSES.get(h, {}).get("mod") != "scen_mem"
                 for profile in ("debug", "release"):
-                    if profile not in replay_bin:
+                    key = profile + ("+stubmm" if stubmm else "")
+                    if key not in replay_bin:
                         try:
-                            replay_bin[profile] = build_replay(build_dir, metas, profile)
+                            replay_bin[key] = build_replay(build_dir, metas, profile, stubmm)
                         except Exception as e:
-                            replay_bin[profile] = None
+                            replay_bin[key] = None
                             out_txt += "replay build failed: %s\n" % str(e)[-1500:]
-                    if not replay_bin[profile]:
+                    if not replay_bin[key]:
                         reproduced = None
                         continue
-                    rc, txt = run_replay(replay_bin[profile], rep_path)
+                    rc, txt = run_replay(replay_bin[key], rep_path)
                     out_txt += "[%s] rc=%d %s\n" % (profile, rc, txt[-600:])
                     if rc not in (1, 4):
                         reproduced = False if reproduced is not None else None
@@ -462,8 +471,9 @@ def replay_main(path):
     try:
         metas, _ = P.codegen(build_dir, os.path.join(build_dir, "codegen.log"), [rep["harness"]])
         rc_all = 0
+        stubmm = R.HARNESSES.get(rep["harness"], {}).get("mod") != "scen_mem"
         for profile in ("debug", "release"):
-            b = build_replay(build_dir, metas, profile)
+            b = build_replay(build_dir, metas, profile, stubmm)
             rc, txt = run_replay(b, path)
             log("[%s] rc=%d\n%s" % (profile, rc, txt[-3000:]))
             rc_all = max(rc_all, 1 if rc in (1, 4) else 0)
